@@ -388,6 +388,20 @@ class FailPlace(object):
                 if v >= 38:
                     e['consumer_type'] = cons.get('type') or 'INSTANCE'
                 allocs[c] = e
+        mix = 'moved' if moved else 'add'
+        fresh = [c for c in self.n.consumers if c not in d.consumers]
+        if moved and fresh and r.random() < 0.4:
+            # the reshape also places a consumer that does not exist yet
+            # (on the destination's new inventory, which has room for it)
+            nc = r.choice(fresh)
+            e = {'allocations': {moved[2]: {'resources': {moved[1]: 1}}},
+                 'project_id': 'pj0', 'user_id': 'us0',
+                 'consumer_generation': None}
+            if v >= 38:
+                e['consumer_type'] = 'INSTANCE'
+            allocs[nc] = e
+            invs[moved[2]][moved[1]]['total'] += 1
+            mix = 'moved+new-consumer'
         reasons = list(RESHAPE_REASONS)
         reason = r.choice(reasons)
         inv_keys = list(invs)
@@ -417,7 +431,10 @@ class FailPlace(object):
             # consumer's usage
             if not moved or not allocs:
                 return None
-            victim = r.choice(sorted(allocs))
+            olds = sorted(c for c in allocs if c in d.consumers)
+            if not olds:
+                return None
+            victim = r.choice(olds)
             pos = 'alloc %d/%d' % (sorted(allocs).index(victim) + 1,
                                    len(allocs))
             del allocs[victim]
@@ -461,7 +478,7 @@ class FailPlace(object):
             'allocations': allocs}
         return Req('POST', '/reshaper', '1.%d' % v, body, roles='service',
                    tag={'op': 'fp_reshaper', 'reason': reason,
-                        'bad_pos': pos, 'mix': 'moved' if moved else 'add',
+                        'bad_pos': pos, 'mix': mix,
                         'consumers': sorted(allocs)})
 
     def next(self, d):
